@@ -320,3 +320,48 @@ Proof.
         -- cbn in Hm. eapply holder_prog; eauto. lia.
     + exists (LRlRet k). cbn [step]. rewrite Hrp. eauto.
 Qed.
+
+(* ------------------------------------------------------------------ the excluded shape is real (in the model) *)
+
+Definition ov_params : params :=
+  mkParams [mkSpec 0 UntilRunDone OnSignal RWC; mkSpec 1 UntilRunDone OnSignal RWC] true true false.
+
+(* boot [c0]; Reload -> [c0;c1] (restart: c0 is re-launched, its goroutine has not entered Run);
+   Reload -> [c0] (restart): Stop() is called on c0, then c0's pending Run begins and clears the
+   signal (cycle reset), so the Stop() waits for a Run nobody will signal *)
+Definition ov_sched : list label :=
+  [LRunCall; LRunBegin; LBootLock ORun; LCb ORun (CbSome [(0, 0)]%N); LBootLaunch ORun; LToRunning;
+   LKRun 0 0%N;
+   LReloadCall 0; LRlLock 0; LCb (ORel 0) (CbSome [(0, 1); (1, 1)]%N);
+   LStopBegin (ORel 0); LWCall 0 0%N; LKExit 0 0%N None; LWUnblock 0; LWRet 0 0%N;
+   LStopJoin (ORel 0); LRlSetCfg 0; LBootLock (ORel 0); LBootLaunch (ORel 0); LRlFinish 0; LRlRet 0;
+   LKRun 2 1%N;
+   LReloadCall 1; LRlLock 1; LCb (ORel 1) (CbSome [(0, 2)]%N); LStopBegin (ORel 1);
+   LWCall 2 0%N; LKRun 1 0%N;
+   LWCall 1 1%N; LKExit 2 1%N None; LWUnblock 1; LWRet 1 1%N].
+
+Definition ov_state : option state := Eval vm_compute in run (step ov_params) init ov_sched.
+Definition ov_st : state := match ov_state with Some s => s | None => init end.
+
+Lemma ov_reach : greach ov_params ov_st.
+Proof. exists ov_sched. split; [repeat constructor|vm_compute; reflexivity]. Qed.
+
+Lemma ov_overtaken : overtaken ov_params ov_st.
+Proof.
+  exists 2, (mkWorker (ORel 1) 0%N WCalled), 1, (mkKid 2 0%N KInRun (ORel 0)).
+  vm_compute. repeat split.
+Qed.
+
+Lemma ov_stuck : forall l s', step ov_params ov_st l = Some s' -> env_label l = true.
+Proof.
+  intros l s' H.
+  destruct l; try reflexivity; exfalso; try destruct o as [|[|[|k]]]; cbn in H; try discriminate H.
+  all: try (destruct i as [|[|[|i]]]; cbn in H; try discriminate H;
+            try (destruct c as [|[p|p|]]; cbn in H; try discriminate H;
+                 destruct e as [[]|]; cbn in H; discriminate H);
+            destruct i; discriminate H).
+  all: try (destruct j as [|[|[|j]]]; cbn in H; try discriminate H;
+            try (destruct c as [|[p|p|]]; cbn in H; discriminate H);
+            destruct j; discriminate H).
+  all: try (destruct k as [|[|[|k]]]; cbn in H; try discriminate H; destruct k; discriminate H).
+Qed.
